@@ -155,25 +155,32 @@ func refPropFilter(f caldav.PropFilter, c rComp) tri {
 	if n == 0 {
 		return triFalse
 	}
-	if n > 1 {
-		return triOpen // several instances of one property: statement speaks of "the property"
-	}
 	if hasRange && f.TextMatch != nil {
 		return triOpen // (time-range | text-match) are alternatives in the DTD
 	}
-	res := triTrue
-	if hasRange {
-		t, err := time.Parse("20060102T150405Z", p.Value)
-		if err != nil {
-			return triOpen // time-range on a non date-time property
+	// RFC 4791 9.7.2: the filter matches if A property of that name satisfies the conditions: with several
+	// instances (ATTENDEE), some instance
+	_ = p
+	out := triFalse
+	for _, p := range c.Props {
+		if p.Name != f.Name {
+			continue
 		}
-		res = triAnd(res, triOf(refOverlap(f.Start, f.End, [2]int64{t.Unix(), t.Unix()})))
+		res := triTrue
+		if hasRange {
+			t, err := time.Parse("20060102T150405Z", p.Value)
+			if err != nil {
+				return triOpen // time-range on a non date-time property
+			}
+			res = triAnd(res, triOf(refOverlap(f.Start, f.End, [2]int64{t.Unix(), t.Unix()})))
+		}
+		res = triAnd(res, refTextMatch(f.TextMatch, p.Value))
+		for _, pf := range f.ParamFilter {
+			res = triAnd(res, refParamFilter(pf, p))
+		}
+		out = triOr(out, res)
 	}
-	res = triAnd(res, refTextMatch(f.TextMatch, p.Value))
-	for _, pf := range f.ParamFilter {
-		res = triAnd(res, refParamFilter(pf, p))
-	}
-	return res
+	return out
 }
 
 // refCompSelf: does component c (whose name equals f.Name) satisfy f's own conditions?
@@ -471,7 +478,11 @@ func c06Objects() []rComp {
 	// a property that is present with an empty value (LOCATION-like); text-match on it is decided by the
 	// substring test and negate-condition like on any other value
 	ee := ev(2, 4, rProp{Name: "UID", Value: "e5"}, rProp{Name: "SUMMARY", Value: "", Params: map[string]string{"LANGUAGE": ""}})
-	kinds := []rComp{e1, e2, td, ea, tz, ee}
+	// a property that occurs twice with different values and parameters
+	e6 := ev(10, 12, rProp{Name: "UID", Value: "e6"}, rProp{Name: "SUMMARY", Value: "two attendees"},
+		rProp{Name: "ATTENDEE", Value: "mailto:cyrus@example.com", Params: map[string]string{"PARTSTAT": "NEEDS-ACTION"}},
+		rProp{Name: "ATTENDEE", Value: "mailto:hello@example.com", Params: map[string]string{"PARTSTAT": "ACCEPTED", "LANGUAGE": "en"}})
+	kinds := []rComp{e1, e2, td, ea, tz, ee, e6}
 	root := func(ch ...rComp) rComp {
 		return rComp{Name: "VCALENDAR", Props: []rProp{{Name: "VERSION", Value: "2.0"}, {Name: "PRODID", Value: "-//verif//EN"}}, Children: ch}
 	}
